@@ -491,7 +491,7 @@ func TestVerifC11(t *testing.T) {
 	}
 
 	// --- random shapes
-	n := out.Scale(1500, 30000)
+	n := out.Scale(1500, 12000)
 	for i := 0; i < n; i++ {
 		c := chains[rnd.Intn(len(chains))]
 		e := c11Env{users: !rnd.Chance(1, 8), firstRun: rnd.Chance(1, 10), https: vfPick(rnd, []int{0, 0, 0, 1, 2})}
